@@ -168,6 +168,14 @@ set_hdr_error(kdump_ctx_t *ctx, kdump_status status,
 			 type, idx, (unsigned long long) offset);
 }
 
+static kdump_status
+set_hdr_size_error(kdump_ctx_t *ctx, const char *type, size_t entsz)
+{
+	return set_error(ctx, KDUMP_ERR_CORRUPT,
+			 "Invalid ELF %s header entry size: %zu",
+			 type, entsz);
+}
+
 static const char *
 mach2arch(unsigned mach, int elfclass)
 {
@@ -1206,8 +1214,10 @@ init_elf32(kdump_ctx_t *ctx, Elf32_Ehdr *ehdr)
 	if (offset != 0 && (shnum == 0 || phnum == PN_XNUM)) {
 		Elf32_Shdr *sect;
 
-		ret = flatmap_get_chunk(ctx->shared->flatmap, &fch,
-					dump16toh(ctx, ehdr->e_shentsize),
+		entsz = dump16toh(ctx, ehdr->e_shentsize);
+		if (entsz < sizeof(Elf32_Shdr))
+			return set_hdr_size_error(ctx, "section", entsz);
+		ret = flatmap_get_chunk(ctx->shared->flatmap, &fch, entsz,
 					0, offset);
 		if (ret != KDUMP_OK)
 			return set_hdr_error(ctx, ret, "section", 0, offset);
@@ -1231,6 +1241,8 @@ init_elf32(kdump_ctx_t *ctx, Elf32_Ehdr *ehdr)
 
 	offset = dump32toh(ctx, ehdr->e_phoff);
 	entsz = dump16toh(ctx, ehdr->e_phentsize);
+	if (phnum && entsz < sizeof(Elf32_Phdr))
+		return set_hdr_size_error(ctx, "program", entsz);
 	for (i = 0; i < phnum; ++i) {
 		Elf32_Phdr *prog;
 		struct load_segment *pls;
@@ -1257,6 +1269,8 @@ init_elf32(kdump_ctx_t *ctx, Elf32_Ehdr *ehdr)
 
 	offset = dump32toh(ctx, ehdr->e_shoff);
 	entsz = dump16toh(ctx, ehdr->e_shentsize);
+	if (shnum && entsz < sizeof(Elf32_Shdr))
+		return set_hdr_size_error(ctx, "section", entsz);
 	for (i = 0; i < shnum; ++i) {
 		Elf32_Shdr *sect;
 
@@ -1299,8 +1313,10 @@ init_elf64(kdump_ctx_t *ctx, Elf64_Ehdr *ehdr)
 	if (offset != 0 && (shnum == 0 || phnum == PN_XNUM)) {
 		Elf64_Shdr *sect;
 
-		ret = flatmap_get_chunk(ctx->shared->flatmap, &fch,
-					dump16toh(ctx, ehdr->e_shentsize),
+		entsz = dump16toh(ctx, ehdr->e_shentsize);
+		if (entsz < sizeof(Elf64_Shdr))
+			return set_hdr_size_error(ctx, "section", entsz);
+		ret = flatmap_get_chunk(ctx->shared->flatmap, &fch, entsz,
 					0, offset);
 		if (ret != KDUMP_OK)
 			return set_hdr_error(ctx, ret, "section", 0, offset);
@@ -1324,6 +1340,8 @@ init_elf64(kdump_ctx_t *ctx, Elf64_Ehdr *ehdr)
 
 	offset = dump64toh(ctx, ehdr->e_phoff);
 	entsz = dump16toh(ctx, ehdr->e_phentsize);
+	if (phnum && entsz < sizeof(Elf64_Phdr))
+		return set_hdr_size_error(ctx, "program", entsz);
 	for (i = 0; i < phnum; ++i) {
 		Elf64_Phdr *prog;
 		struct load_segment *pls;
@@ -1350,6 +1368,8 @@ init_elf64(kdump_ctx_t *ctx, Elf64_Ehdr *ehdr)
 
 	offset = dump64toh(ctx, ehdr->e_shoff);
 	entsz = dump16toh(ctx, ehdr->e_shentsize);
+	if (shnum && entsz < sizeof(Elf64_Shdr))
+		return set_hdr_size_error(ctx, "section", entsz);
 	for (i = 0; i < shnum; ++i) {
 		Elf64_Shdr *sect;
 
